@@ -20,9 +20,10 @@ in the order the C code reads and writes memory.
 * Loops over pointer chains carry a fuel argument (`Mem.fuel`, quadratic in the heap size); running out of
   it is `Fault.diverge` (the C code would loop or recurse for ever on a cyclic structure).  Theorem
   `no_fault` shows it is enough for every program that respects the ownership rules.
-* xmpp_stanza_copy / xmpp_stanza_new_from_string are a read-only walk (`export`, every pointer checked)
-  followed by the construction of fresh nodes (`importTree`) from the tree value computed by the C09
-  models (`Stanza.copy`, `Stanza.fromString`); xmpp_stanza_reply builds its single node the same way;
+* xmpp_stanza_copy / xmpp_stanza_new_from_string are a read-only walk (`exportTree`, every pointer checked)
+  followed by the construction of fresh nodes (`importTree`: allocate a node with its strings and table,
+  build each child subtree, hand it over with xmpp_stanza_add_child_ex(.., 0)) from the tree value computed
+  by the C09 models (`Stanza.copy`, `Stanza.fromString`); xmpp_stanza_reply builds its single node the same way;
   xmpp_stanza_reply_error and xmpp_error_new are the C functions' own sequences of public calls
   (new / set_* / add_child / release), so their reference juggling is executed, not assumed.
   Allocation failures and the transient blocks inside one call (iterators, escape buffers, the parser)
@@ -108,6 +109,10 @@ def alloc (m : Mem) (k : Nat) : Mem := { m with blocks := m.blocks + k }
 
 /-- `k` calls of `strophe_free` -/
 def free (m : Mem) (k : Nat) : Mem := { m with blocks := m.blocks - k }
+
+/-- a fresh node with its strings and table: node + data + table blocks -/
+def push (m : Mem) (node : Node) : Mem :=
+  { m with heap := m.heap ++ [node], blocks := m.blocks + node.owned }
 
 /-- every `stanza->…` access -/
 def deref (m : Mem) (p : Nat) : R Node :=
@@ -319,37 +324,24 @@ def exportKids : Nat → Mem → Nat → Option Nat → R (List Tree)
       pure (t :: rest)
 end
 
-/-- a fresh node with its strings and table: node + data + table blocks -/
-def Mem.push (m : Mem) (node : Node) : Mem :=
-  { m with heap := m.heap ++ [node], blocks := m.blocks + node.owned }
-
-/-- `copy->children = first child` -/
-def Mem.setChildren (m : Mem) (id : Nat) (first : Option Nat) : Mem :=
-  m.put id { m.get id with children := first }
-
 mutual
-/-- fresh nodes for the tree value `t` (pre-order), linked as xmpp_stanza_copy / the parser link them:
-    every node has ref 1, the root has no parent and no siblings; returns the root's id -/
-def importTree (m : Mem) : Tree → Mem × Nat
+/-- fresh nodes for the tree value `t` (pre-order), every node with reference count 1, the root without
+    parent and siblings; returns the root's id.  A node is allocated with its strings and table, then each
+    child subtree is built and handed over with `xmpp_stanza_add_child_ex(node, child, 0)` — what
+    parser_expat.c does, and what the manual linking in xmpp_stanza_copy amounts to (same `parent`, `prev`,
+    `next`, `children` in the end) -/
+def importTree (m : Mem) : Tree → R (Mem × Nat)
   | .tag name attrs ks =>
-    let r := importKids (m.push { Node.fresh with kind := .tag, data := some name, attrs := attrs }) m.heap.length ks none
-    (r.1.setChildren m.heap.length r.2, m.heap.length)
-  | .text d ks =>
-    let r := importKids (m.push { Node.fresh with kind := .text, data := some d }) m.heap.length ks none
-    (r.1.setChildren m.heap.length r.2, m.heap.length)
-  | .unknown ks =>
-    let r := importKids (m.push Node.fresh) m.heap.length ks none
-    (r.1.setChildren m.heap.length r.2, m.heap.length)
-/-- children of `p`, linked after `prev`; returns the first one -/
-def importKids (m : Mem) (p : Nat) : List Tree → Option Nat → Mem × Option Nat
-  | [], _ => (m, none)
-  | k :: ks, prev =>
-    let r := importTree m k
-    let m1 := r.1.put r.2 { r.1.get r.2 with parent := some p, prev := prev }
-    let m2 := match prev with
-      | some q => m1.put q { m1.get q with next := some r.2 }
-      | none => m1
-    ((importKids m2 p ks (some r.2)).1, some r.2)
+    importKids (m.push { Node.fresh with kind := .tag, data := some name, attrs := attrs }) m.heap.length ks
+  | .text d ks => importKids (m.push { Node.fresh with kind := .text, data := some d }) m.heap.length ks
+  | .unknown ks => importKids (m.push Node.fresh) m.heap.length ks
+/-- the children of `p`, one after the other -/
+def importKids (m : Mem) (p : Nat) : List Tree → R (Mem × Nat)
+  | [] => pure (m, p)
+  | k :: ks => do
+    let (m, c) ← importTree m k
+    let (m, _) ← addChildEx m p c false
+    importKids m p ks
 end
 
 /-- `xmpp_stanza_copy` (`none` = NULL) -/
@@ -357,25 +349,25 @@ def copy (m : Mem) (s : Nat) : R (Mem × Option Nat) := do
   let t ← exportTree m.fuel m s
   match Stanza.copy t with
   | none => pure (m, none)
-  | some t' =>
-    let (m, id) := importTree m t'
+  | some t' => do
+    let (m, id) ← importTree m t'
     pure (m, some id)
 
 /-- `xmpp_stanza_new_from_string` (the parser's own blocks are returned by `parser_free`) -/
-def fromString (m : Mem) (s : Bytes) : Mem × Option Nat :=
+def fromString (m : Mem) (s : Bytes) : R (Mem × Option Nat) :=
   match Stanza.fromString s with
-  | none => (m, none)
-  | some t =>
-    let (m, id) := importTree m t
-    (m, some id)
+  | none => pure (m, none)
+  | some t => do
+    let (m, id) ← importTree m t
+    pure (m, some id)
 
 /-- `xmpp_stanza_reply`: one fresh node, no children -/
 def reply (m : Mem) (s : Nat) : R (Mem × Option Nat) := do
   let n ← m.deref s
   match Stanza.reply (mkTree n []) with
   | none => pure (m, none)
-  | some t =>
-    let (m, id) := importTree m t
+  | some t => do
+    let (m, id) ← importTree m t
     pure (m, some id)
 
 /-- `xmpp_stanza_reply_error`: the C function's own sequence of public calls -/
@@ -684,8 +676,8 @@ def step (st : St) : Op → R (St × Out)
   | .parse b w =>
     match destOk st w with
     | some why => pure (st, .refused why)
-    | none =>
-      let (m, r) := fromString st.mem b
+    | none => do
+      let (m, r) ← fromString st.mem b
       pure (putNew st w m r)
   | .getattr t k => do
     match ← resolve st t with
@@ -728,40 +720,28 @@ R1  A reference is given up exactly once: `xmpp_stanza_release` is called only t
     slot is emptied (`relkeep` keeps using a reference it no longer owns).
 R2  `xmpp_stanza_add_child_ex(.., do_clone = 0)` hands the caller's reference over (slot emptied: by
     construction of `addx`).
-R3  A stanza is put below another one only while it is DETACHED — not linked into the child list of any
-    live stanza — and never below itself or one of its own descendants (the stanza tree is a tree:
-    `struct _xmpp_stanza_t` has one `parent` and one `next`).
+R3  A stanza is put below another one only while it is DETACHED — not a child of any stanza — and never
+    below itself or one of its own descendants (the stanza tree is a tree: `struct _xmpp_stanza_t` has
+    one `parent` and one `next`).
 R4  Borrowed pointers (xmpp_stanza_get_children / _get_next) are used only within the call sequence that
     obtained them (paths are resolved anew for every op: by construction).
 Everything else — any order of calls, clones of children kept beyond their parents, releases in any
 order — is allowed. -/
 
-/-- ids on a `next` chain (stops at a freed node) -/
-def chainIds : Nat → Mem → Option Nat → List Nat
-  | _, _, none => []
-  | 0, _, some _ => []
-  | f + 1, m, some c => if (m.get c).live then c :: chainIds f m (m.get c).next else [c]
+/-- not a child of any stanza: with the repaired xmpp_stanza_release the `parent` field is exact — NULL
+    if and only if the stanza is detached (`Props/C12.lean parent_exact`) -/
+def Detached (m : Mem) (c : Nat) : Prop := (m.get c).parent = none
 
-/-- the children of `p`, as the pointer walk sees them -/
-def kidsOf (m : Mem) (p : Nat) : List Nat := chainIds (m.size + 1) m (m.get p).children
-
-/-- not linked into the child list of any live stanza -/
-def Detached (m : Mem) (c : Nat) : Prop :=
-  ∀ p ∈ List.range m.size, (m.get p).live = true → c ∉ kidsOf m p
-
-mutual
-/-- ids of the subtree below `s` (pre-order), as the pointer walk sees them -/
-def subtreeIds : Nat → Mem → Nat → List Nat
-  | 0, _, s => [s]
-  | f + 1, m, s => s :: subtreeKids f m (if (m.get s).live then (m.get s).children else none)
-def subtreeKids : Nat → Mem → Option Nat → List Nat
-  | _, _, none => []
-  | 0, _, some c => [c]
-  | f + 1, m, some c => subtreeIds f m c ++ subtreeKids f m (if (m.get c).live then (m.get c).next else none)
-end
+/-- `x`, its parent, its parent's parent, … -/
+def ancestors : Nat → Mem → Nat → List Nat
+  | 0, _, x => [x]
+  | f + 1, m, x =>
+    x :: (match (m.get x).parent with
+      | some q => if (m.get x).live then ancestors f m q else []
+      | none => [])
 
 /-- `p` is not `c` itself nor below it -/
-def NoCycle (m : Mem) (c p : Nat) : Prop := p ∉ subtreeIds m.fuel m c
+def NoCycle (m : Mem) (c p : Nat) : Prop := c ∉ ancestors m.fuel m p
 
 instance (m : Mem) (c : Nat) : Decidable (Detached m c) := by unfold Detached; infer_instance
 instance (m : Mem) (c p : Nat) : Decidable (NoCycle m c p) := by unfold NoCycle; infer_instance
